@@ -67,7 +67,7 @@ def run(ctx):
     spec_runs(ctx)
     d = os.path.join(ctx.scratch, "runs"); os.makedirs(d, exist_ok=True)
     traces = []; meta = []
-    shapes = SHAPES[:ctx.pick(4, 6)] + BATCH_SHAPES
+    shapes = SHAPES[:ctx.pick(4, 6)] + BATCH_SHAPES + [dict(explib.BUILTIN_SHAPES[0], fail=[(1, 0, 0)]), explib.BUILTIN_SHAPES[1]]
     wheres = ["start", "middle", "predict", "learn"]
     for si, shape in enumerate(shapes):
         for where in (wheres if shape["fail"] else [None]):
@@ -78,7 +78,7 @@ def run(ctx):
                 full = explib.build(dict(shape, tr=shape["tr"]), where=where)       # same object parameters as in the full experiment
                 idx = shape["tr"].index(t)
                 explib.quiet_ctx()
-                res = Experiment([full[idx]]).run(quiet=True, processes=1)
+                res = Experiment([full[idx]]).run(quiet=True, processes=1, seed=shape.get("seed", 1))
                 solo[tuple(t)] = rows_by_triple(res).get(tuple(t), [])
             for t in fail:
                 if solo[t]: raise RuntimeError("a failing triple produced rows when run alone")
@@ -100,7 +100,7 @@ def run(ctx):
                     before = {k: pickle.dumps(l) for k, l in shared.items()}
                     def go():
                         explib.quiet_ctx()
-                        return Experiment(triples).run(f, quiet=True, processes=cfg["p"], maxchunksperchild=cfg["mc"], maxtasksperchunk=cfg["mt"])
+                        return Experiment(triples).run(f, quiet=True, processes=cfg["p"], maxchunksperchild=cfg["mc"], maxtasksperchunk=cfg["mt"], seed=shape.get("seed", 1))
                     if cfg["p"] == 1 and cfg["mc"] == 0: out = {"value": go(), "verdict": "ok"}
                     else: out, _ = vmp.run_scheduled(go, vsched.random_policy(random.Random(sseed)))
                     ctx.case(json.dumps([si, where, order, cfg]))
